@@ -142,7 +142,7 @@ func perNodeEvents(hh *h.Hist, g h.GroupSpec, cap int, taintValues []string) []h
 	var ev []h.Event
 	for _, n := range groupNodes(hh, g, cap) {
 		name := n.Name
-		ev = append(ev, evPodStart(g, name, 200), evPodStartAffinity(g, name, 100), evPodFinish(g, name), evDaemonSet(g, name))
+		ev = append(ev, evPodStart(g, name, 200), evPodStartAffinity(g, name, 100), evPodStartPending(g, name, 100), evPodFinish(g, name), evDaemonSet(g, name))
 		ev = append(ev, evCordon(name, !n.Spec.Unschedulable))
 		for _, v := range taintValues {
 			ev = append(ev, evExtTaint(name, v))
@@ -156,6 +156,8 @@ func perNodeEvents(hh *h.Hist, g h.GroupSpec, cap int, taintValues []string) []h
 	}
 	return ev
 }
+
+var c01TaintValuesShort = []string{"now-1q", "now-5q", "now+10q", "abc", "0x5f5e100"}
 
 var c01TaintValues = []string{"now+0q", "now-1q", "now-3q", "now-5q", "now+10q", "abc", "", "12.5", "-5", "0x5f5e100", "1_000"}
 
@@ -175,7 +177,12 @@ func C01Scenarios(tier string) []*h.Scenario {
 				init(hh, a, g)
 			},
 			Events: func(hh *h.Hist, slot int) []h.Event {
-				ev := perNodeEvents(hh, g, 4, c01TaintValues)
+				// the full value alphabet on the mid-lifecycle world; a representative subset elsewhere
+				vals := c01TaintValuesShort
+				if name == "c01.mid" || tier == "thorough" {
+					vals = c01TaintValues
+				}
+				ev := perNodeEvents(hh, g, 4, vals)
 				ev = append(ev, evBurst(g, 3, 1000), evClearPending(g), evRestart(), evStale(), evSkipSettle(), evRefreshFails())
 				return ev
 			},
